@@ -6,6 +6,7 @@ import Driver.FlowMon
 import Driver.C14Mon
 import Driver.C05Mon
 import Driver.C08Mon
+import Driver.C10Mon
 open Kv
 
 structure MState where
@@ -25,6 +26,7 @@ def dispatchMon (st : MState) (prop : String) (l : Line) : MState × String :=
   | "C14" => (st, Drv.C14.stepMon l)
   | "C05" => (st, Drv.C05.step l)
   | "C08" => let (s, r) := Drv.C08.stepMon st.c08 l; ({ st with c08 := s }, r)
+  | "C10" => (st, Drv.C10.step l)
   | _ => (st, "bad-op")
 
 def main : IO Unit := driverMain dispatchMon {}
